@@ -29,6 +29,8 @@ def run(index, tier="quick", seed=0) -> Result:
     report_translation(res, _scan(index), lambda func, path: (path[0] if path else func).split(".")[0] in ("Polygon", "ConvexPolygon", "Circle", "Ellipse", "ConvexSpheropolygon") and (path[0] if path else func).endswith(".is_inside"),
                        "is_inside implementations")
 
+    from ..parallel import report as _copy1
+    _copy1(res, index, lambda f: f['top'] == 'is_inside' and f['cls'] in ('Polygon', 'ConvexPolygon', 'Circle', 'Ellipse'))
     # IN-6
     fn = index.cls("Polygon").lookup("is_inside")
     pad = False
@@ -103,6 +105,4 @@ def run(index, tier="quick", seed=0) -> Result:
                 "a sign-sensitive test makes the answer depend on the vertex orientation")
     else:
         raise AnalysisError("Polygon.is_inside: the returned value is not a recognised test of the winding number against 0")
-    from ..parallel import report as _copy1
-    _copy1(res, index, lambda f: f['top'] == 'is_inside' and f['cls'] in ('Polygon', 'ConvexPolygon', 'Circle', 'Ellipse'))
     return res
